@@ -320,16 +320,18 @@ namespace Dune
     //! vector space multiplication with scalar
     derived_type &operator*= (const field_type& k)
     {
+      const field_type kk = k;   // by value: k may refer to an entry of *this
       for (size_type i=0; i<rows(); i++)
-        (*this)[i] *= k;
+        (*this)[i] *= kk;
       return asImp();
     }
 
     //! vector space division by scalar
     derived_type &operator/= (const field_type& k)
     {
+      const field_type kk = k;   // by value: k may refer to an entry of *this
       for (size_type i=0; i<rows(); i++)
-        (*this)[i] /= k;
+        (*this)[i] /= kk;
       return asImp();
     }
 
@@ -338,8 +340,9 @@ namespace Dune
     derived_type &axpy (const field_type &a, const DenseMatrix<Other> &x )
     {
       DUNE_ASSERT_BOUNDS(rows() == x.rows());
+      const field_type aa = a;   // by value: a may refer to an entry of *this
       for( size_type i = 0; i < rows(); ++i )
-        (*this)[ i ].axpy( a, x[ i ] );
+        (*this)[ i ].axpy( aa, x[ i ] );
       return asImp();
     }
 
@@ -488,9 +491,10 @@ namespace Dune
       auto&& yy = Impl::asVector(y);
       DUNE_ASSERT_BOUNDS(xx.N() == M());
       DUNE_ASSERT_BOUNDS(yy.N() == N());
+      const typename FieldTraits<Y>::field_type a = alpha;   // by value: alpha may refer to an entry of y
       for (size_type i=0; i<rows(); i++)
         for (size_type j=0; j<cols(); j++)
-          yy[i] += alpha * (*this)[i][j] * xx[j];
+          yy[i] += a * (*this)[i][j] * xx[j];
     }
 
     //! y += alpha A^T x
@@ -502,9 +506,10 @@ namespace Dune
       auto&& yy = Impl::asVector(y);
       DUNE_ASSERT_BOUNDS(xx.N() == N());
       DUNE_ASSERT_BOUNDS(yy.N() == M());
+      const typename FieldTraits<Y>::field_type a = alpha;   // by value: alpha may refer to an entry of y
       for (size_type i=0; i<rows(); i++)
         for (size_type j=0; j<cols(); j++)
-          yy[j] += alpha*(*this)[i][j]*xx[i];
+          yy[j] += a*(*this)[i][j]*xx[i];
     }
 
     //! y += alpha A^H x
@@ -516,10 +521,11 @@ namespace Dune
       auto&& yy = Impl::asVector(y);
       DUNE_ASSERT_BOUNDS(xx.N() == N());
       DUNE_ASSERT_BOUNDS(yy.N() == M());
+      const typename FieldTraits<Y>::field_type a = alpha;   // by value: alpha may refer to an entry of y
       for (size_type i=0; i<rows(); i++)
         for (size_type j=0; j<cols(); j++)
           yy[j] +=
-            alpha*conjugateComplex((*this)[i][j])*xx[i];
+            a*conjugateComplex((*this)[i][j])*xx[i];
     }
 
     //===== norms
